@@ -67,6 +67,7 @@ namespace ip {
 		s.m_open = false;
 		s.m_bound_to = ip::udp::endpoint();
 		s.m_user_bound_to = ip::udp::endpoint();
+		s.m_dont_fragment = false;
 		if (m_bound_to != ip::udp::endpoint())
 			m_io_service.rebind_udp_socket(this, m_bound_to);
 	}
@@ -173,6 +174,9 @@ namespace ip {
 		// datagrams nobody read belong to the binding that is going away
 		m_incoming_queue.clear();
 		m_queue_size = 0;
+
+		// options were set on the descriptor that is going away
+		m_dont_fragment = false;
 
 		cancel(ec);
 	}
